@@ -5,6 +5,8 @@ use falcon_rust::{falcon1024 as f10, falcon512 as f5};
 use libfuzzer_sys::fuzz_target;
 use std::sync::OnceLock;
 
+mod pk_fixture;
+
 static PK5: OnceLock<f5::PublicKey> = OnceLock::new();
 static PK10: OnceLock<f10::PublicKey> = OnceLock::new();
 
@@ -48,13 +50,13 @@ fuzz_target!(|data: &[u8]| {
         }
         // signature bodies through from_bytes + verify under a fixed public key
         5 | 6 | 7 => {
-            let pk = PK5.get_or_init(|| f5::keygen([7u8; 32]).1);
+            let pk = PK5.get_or_init(|| f5::PublicKey::from_bytes(&pk_fixture::PK512).expect("fixture"));
             if let Ok(sig) = f5::Signature::from_bytes(&fit(rest, 666, 0x59)) {
                 let _ = f5::verify(b"fuzz", &sig, pk);
             }
         }
         8 => {
-            let pk = PK10.get_or_init(|| f10::keygen([7u8; 32]).1);
+            let pk = PK10.get_or_init(|| f10::PublicKey::from_bytes(&pk_fixture::PK1024).expect("fixture"));
             if let Ok(sig) = f10::Signature::from_bytes(&fit(rest, 1280, 0x5a)) {
                 let _ = f10::verify(b"fuzz", &sig, pk);
             }
